@@ -922,10 +922,17 @@ func (e *enumerator) Every(upd func(key uint64, oldV *Container, exists bool) (n
 		nv, write := upd(i.k, i.v, true)
 		if write {
 			if nv == nil {
+				// Deleting shifts the following items into this position and
+				// may merge or release pages (a released page goes back to the
+				// pool and may already belong to another tree): do not touch
+				// e.q again, reposition on the first key after the deleted one.
 				e.t.Delete(i.k)
-			} else {
-				e.q.d[e.i].v = nv
+				f, _ := e.t.Seek(i.k)
+				*e = *f
+				f.Close()
+				continue
 			}
+			e.q.d[e.i].v = nv
 		}
 		// Any error returned would be stashed in e.err, and would come up
 		// on the next call.
